@@ -128,10 +128,15 @@ def yhat(ctx, N):
 
 
 def regressors(ctx):
+    default_regressor(ctx, "R-REGRESSOR")
+    accepted_regressors(ctx)
+
+
+def default_regressor(ctx, rule):
+    """(shared with C03: with an intercept Yhat = XW + b while the feature route only sees X^T Yhat)"""
     P = ctx.P
     cls = P.cls(pc.PCOVR)
     site = ctx.site(P.method(cls, "fit"))
-    # default regressor
     I = ctx.interp(order=[("K", "<=", "N"), ("K", "<=", "M")], assume=protocols.assume_default)
     st = State()
     o = ctx.construct(I, st, cls, n_components=integer("K"), mixing=scalar("alpha", 0, 1), svd_solver="full", space="feature")
@@ -139,8 +144,13 @@ def regressors(ctx):
     ctx.call_method(I, st, o, "fit", arr("X", "N", "M"), arr("Y", "N", "P"))
     news = [e for e in I.events[lo:] if e["kind"] == "ext-new" and e["cls"].endswith("Ridge")]
     ok = len(news) == 1 and news[0]["kwargs"].get("fit_intercept") is not None and news[0]["kwargs"]["fit_intercept"].has_const and news[0]["kwargs"]["fit_intercept"].const is False
-    ctx.ob("R-REGRESSOR", "the default regressor is an intercept-free Ridge", ok, f"{[(e['cls'], {k: repr(v.term) for k, v in e['kwargs'].items()}) for e in news]}", site)
-    # accepted kinds
+    ctx.ob(rule, "the default regressor is an intercept-free Ridge", ok, f"{[(e['cls'], {k: repr(v.term) for k, v in e['kwargs'].items()}) for e in news]}", site)
+
+
+def accepted_regressors(ctx):
+    P = ctx.P
+    cls = P.cls(pc.PCOVR)
+    site = ctx.site(P.method(cls, "fit"))
     for rc, accepted in (("sklearn.linear_model.Ridge", True), ("sklearn.linear_model.LinearRegression", True), ("sklearn.linear_model.RidgeCV", True), ("sklearn.svm.SVR", False), ("sklearn.linear_model.Lasso", False)):
         I = ctx.interp(order=[("K", "<=", "N"), ("K", "<=", "M")], assume=protocols.assume_default)
         st = State()
